@@ -68,7 +68,7 @@ mod __verif_c16 {
         framing_case(3, 3);
     }
 
-    // @harness tiers=quick,thorough timeout=900 finding=C16-content-length-ignored
+    // @harness tiers=quick,thorough timeout=900
     // @encodes distributed::http_client::parse_response
     // @bounds as complete_body_is_returned_exactly but the peer closes early: (D,k) = (2,1), (5,3), (3,0)
     // @oracle a body shorter than the declared Content-Length is an error, never a success
